@@ -16,16 +16,25 @@ fixes D9 and D10; the unrepaired behaviour is kept as `radialEvalOld`, `memoMode
 
 * Index maps (unbounded in the index): `noll_valid`, `noll_left_inverse`, `noll_right_inverse`,
   `noll_injective`, `zernikeToNoll_closed_form`, `zernikeToNoll_none_iff`, ordering
-  `noll_order_block/_n/_absm/_sign`; the same for ANSI.
-* Values (table bounded by the property, `n ≤ 20`; every rational point): `radial_table`,
-  `radial_matches_definition`, `radial_at_zero`, `mode_at_centre`, `radial_orthonormal`,
-  `normalisation_unit`, `mode_cartesian_eq_polar`, `inside_cartesian_eq_polar`; for every order:
-  `radial_poly_eval`, `radial_at_zero_pos`, `Old.radial_agrees_off_centre`, `Old.radial_nan_at_centre`.
+  `noll_order_block/_n/_absm/_sign`; the same for ANSI.  The float square roots of the code: `noll_order_float_robust/_safe`,
+  `ansi_order_float_robust/_safe`, `tonoll_window_start_float_robust` (the model's integer decision is the floor of every
+  real within an explicit margin of the code's expression).
+* Values, **every radial order**, every rational point: `radial_matches_definition`, `reduced_matches_definition`,
+  `radial_at_zero`, `mode_at_centre`, `radial_poly_eval`, `radial_at_zero_pos`; every real point: `azimuthal_all_real`,
+  `cisPow_all_real`, `zernikeR_eq_model_all_real`, `mode_cartesian_all_real`, `inside_cartesian_all_real`; table bounded by the
+  property (`n ≤ 20`): `radial_table`, `radial_orthonormal`, `radial_matches_definition_table`; `normalisation_unit`,
+  `mode_cartesian_eq_polar`, `inside_cartesian_eq_polar`.
 * Orthonormality as integrals (Mathlib interval integrals): `pint01_is_integral`,
   `pint01_is_weighted_integral`, `radial_orthonormal_integral`, `azimuthal_cos_cos/_sin_sin/_cos_sin`,
-  `azimuthal_orthonormal`, `zernikeR_eq_model`, `zernike_orthonormal_disc`, `zernike_orthonormal_noll`.
-* Cache (every request history): `cache_irrelevant`, `cache_irrelevant_after_any_history`,
-  `cache_irrelevant_order`, `Old.cache_counterexample`.
+  `azimuthal_orthonormal`, `zernikeR_eq_model`, `zernike_orthonormal_disc`, `zernike_orthonormal_noll`; stated on the
+  executed definitions: `azimuthal_orthonormal_model`, `radial_orthonormal_integral_model`, `zernike_orthonormal_disc_model`.
+* Cache (every request history): per point `cache_irrelevant`, `cache_irrelevant_after_any_history`,
+  `cache_irrelevant_order`; at array level with references and in-place writes (`Model/ZernikeArr.lean`)
+  `acache_irrelevant`, `acache_entries_stay_fresh`, `acache_irrelevant_after_any_history`, `acache_irrelevant_order`, layouts
+  `separated_layout`, `separated_length`, `unstructured_layout`.
+* `make_zernike_basis`: `basis_mode_index`, `basis_length`, `basis_modes_distinct`, `basis_columns`, `basis_cache_irrelevant`,
+  `basis_column_index`; Field generators on several grids: `generators_any_grid`, `generators_shared_same_grid`.
+* `Old.*`: refutations of code that is no longer in /repo (D9, D10, D130, late binding) — documentation, not evidence.
 -/
 
 set_option linter.unusedSimpArgs false
@@ -234,6 +243,20 @@ theorem ansi_order_float_safe (i : Nat) (hb : 8 * i + 1 < 2 ^ 50) (y : ℝ)
     (hy : |y - (√((8 * i + 1 : ℕ) : ℝ) - 1) / 2| ≤ √((8 * i + 1 : ℕ) : ℝ) / 2 ^ 52) :
     ⌊y⌋₊ = (ansiToZernike i).1 := ansiN_float_safe i hb y hexact hy
 
+/-- `zernike_to_noll` starts its search at `int(((n + 0.5)**2 + 1) / 2) + 1`: the real value is `n(n+1)/2 + 5/8`, so every `y`
+within `3/8` of it gives the start `n(n+1)/2 + 1` of the model's `zernikeToNoll` (the first Noll index of row `n`) -/
+theorem tonoll_window_start_float_robust (n : Nat) (y : ℝ)
+    (hy : |y - (((n : ℝ) + 1 / 2) ^ 2 + 1) / 2| < 3 / 8) : ⌊y⌋₊ + 1 = n * (n + 1) / 2 + 1 := by
+  have ht := two_tri n
+  have hT : n * (n + 1) / 2 = tri n := rfl
+  rw [hT]
+  have htr : 2 * (tri n : ℝ) = (n : ℝ) * (n + 1) := by exact_mod_cast ht
+  obtain ⟨h1, h2⟩ := abs_lt.mp hy
+  have hy0 : 0 ≤ y := by nlinarith [sq_nonneg ((n : ℝ) + 1 / 2)]
+  congr 1
+  rw [Nat.floor_eq_iff hy0]
+  constructor <;> nlinarith
+
 /-- the hypotheses are satisfiable: the exact values themselves (`i = 3`: `√5 + ½`; `√25 = 5`, `y = 2`) -/
 example : |(√((2 * 3 - 1 : ℕ) : ℝ) + 1 / 2) - (√((2 * 3 - 1 : ℕ) : ℝ) + 1 / 2)| ≤ (√((2 * 3 - 1 : ℕ) : ℝ) + 1 / 2) / 2 ^ 52 := by
   rw [sub_self, abs_zero]; positivity
@@ -375,6 +398,33 @@ theorem normalisation_unit (n : Nat) (m : Int) :
 code — at `(x, y) = (r c, r s)`. -/
 theorem mode_cartesian_eq_polar (n : Nat) (m : Int) (D r c s : Rat) (hcs : c ^ 2 + s ^ 2 = 1) :
     modeQXY n m D (r * c) (r * s) = modeQ n m D r c s := modeQXY_polar n m D r c s hcs
+
+/-- **Cartesian grid points, real polar coordinates.** `zernike()` converts a Cartesian grid with `hypot` / `arctan2`; the
+radius of a grid point with rational coordinates is in general irrational, so `mode_cartesian_eq_polar` (rational `r, c, s`)
+does not reach it.  This does: for every rational point `(x, y)` and **every real** `r, θ` with `(x, y) = (r cos θ, r sin θ)`, the
+value the driver computes for that point (`modeQXY`, exact rational arithmetic) is the polar formula of the code — recursion
+polynomial at `2r/D` times the azimuthal factor at `θ` (`azimQ` at `ℝ`, i.e. `cos mθ` / `sin|m|θ` / `1` by `azimuthal_all_real`). -/
+theorem mode_cartesian_all_real (n : Nat) (m : Int) (D x y : Rat) (r θ : ℝ)
+    (hx : (x : ℝ) = r * Real.cos θ) (hy : (y : ℝ) = r * Real.sin θ) :
+    ((modeQXY n m D x y : Rat) : ℝ) =
+      pevalR (radialPoly n m.natAbs) (2 * r / (D : ℝ)) * azimQ m (Real.cos θ) (Real.sin θ) :=
+  modeQXY_real n m D x y r θ hx hy
+
+/-- … and the exact rim decision of the driver is `2r < D` for that real radius -/
+theorem inside_cartesian_all_real (D x y : Rat) (r θ : ℝ) (hx : (x : ℝ) = r * Real.cos θ) (hy : (y : ℝ) = r * Real.sin θ)
+    (hr : 0 ≤ r) (hD : 0 < D) : insideXY D x y = true ↔ 2 * r < (D : ℝ) := by
+  unfold insideXY
+  rw [decide_eq_true_iff]
+  have hDr : (0 : ℝ) < D := by exact_mod_cast hD
+  have e : ((4 * (x * x + y * y) : Rat) : ℝ) = (2 * r) * (2 * r) := by
+    push_cast; rw [hx, hy]
+    have := Real.cos_sq_add_sin_sq θ
+    nlinarith
+  have e2 : ((D * D : Rat) : ℝ) = (D : ℝ) * D := by push_cast; ring
+  rw [← Rat.cast_lt (K := ℝ), e, e2]
+  constructor
+  · intro h; by_contra hc; push Not at hc; nlinarith
+  · intro h; nlinarith
 
 theorem inside_cartesian_eq_polar (D r c s : Rat) (hcs : c ^ 2 + s ^ 2 = 1) (hr : 0 ≤ r) (hD : 0 < D) :
     insideXY D (r * c) (r * s) = inside D r := by
@@ -837,5 +887,7 @@ example : ∃ c s : Rat, c ^ 2 + s ^ 2 = 1 ∧ c ≠ 0 ∧ s ≠ 0 := ⟨3 / 5, 
 example : (4 - 0) % 2 = 0 ∧ 0 ≤ 4 ∧ 4 ≤ 20 := by decide
 example : valid 20 (-20) = true ∧ (nollToZernike 231).1 = 20 := by decide +kernel
 example : ∃ (c s : Rat) (θ : ℝ), (c : ℝ) = Real.cos θ ∧ (s : ℝ) = Real.sin θ := ⟨1, 0, 0, by simp, by simp⟩
+example : ∃ (x y : Rat) (r θ : ℝ), (x : ℝ) = r * Real.cos θ ∧ (y : ℝ) = r * Real.sin θ ∧ 0 ≤ r :=
+  ⟨1 / 2, 0, 1 / 2, 0, by simp, by simp, by norm_num⟩
 
 end HcipyVerif.C13
